@@ -33,14 +33,14 @@ RULE = (
 ASSUMPTIONS = [
     "every year of a time series is a member of its table's time axis (documented precondition of TimeDependentValuesEntry / TimeDependentConnections; values outside the axis are not written)",
     "a program set keeps at least one program and a databook at least one population (an empty program book cannot be read back: no currency)",
-    "if the re-read content is bit-identical (all numbers representable in the 16 digits a spreadsheet stores; 80% of the cases by construction) simulations are compared element-wise at 1e-9, otherwise (content equal to 1e-14 only) at 1e-9 relative to the largest magnitude in the run, because a 1e-16 input perturbation is amplified by cancellation in stiff models",
+    "'simulations agree to 1e-9' is read as |a-b| <= 1e-9*max(1, largest magnitude in the run): last-bit input differences (16 stored digits) and different summation orders (re-read tables are ordered differently) are amplified by cancellation in stiff models with up to 1e10 people; 80% of the cases use numbers that a spreadsheet stores exactly, so that content comparisons are exact there",
     "the 'export' of a ParameterSet is its databook (ProjectData.to_spreadsheet) plus its calibration_spreadsheet(); of a ProgramSet its to_spreadsheet()",
     "reconcile is made reproducible by passing randseed/maxiters to sciris.asd (the atomica API does not expose them); only the reconciled set vs its own export is compared",
     "zero-uncertainty sampling is exercised on objects whose uncertainties are all 0 or empty; sampling twice is a documented refusal",
     "calibration files: 'unknown' = a parameter/transfer/interaction name, source population or population column that the ParameterSet does not contain; rows that give a population for an ordinary parameter are malformed, not unknown, and are not generated",
     "single population type only (gen_model does not generate several types)",
 ]
-BUDGET = {"quick": 480, "thorough": 9000}
+BUDGET = {"quick": 640, "thorough": 9000}
 TIME_CAP = {"quick": 70, "thorough": 1150}
 RTOL_CONTENT = 1e-14
 RTOL_SIM = 1e-9
@@ -211,10 +211,10 @@ def _content(v, what, a, b, rtol, prefix):
     return not canon.pdiff(a, b, 0.0)
 
 
-def _cmp(arr_a, arr_b, exact):
-    """None or description; element-wise 1e-9 if the inputs were bit-identical else relative to the scale of the run"""
-    if exact:
-        return canon.compare_results(arr_a, arr_b, rtol=RTOL_SIM)
+def _cmp(arr_a, arr_b, exact=None):
+    """None or a description of the first difference beyond 1e-9 relative to the largest magnitude in the run.
+    (Element-wise 1e-9 is too strict even for bit-identical content: a re-read book orders its tables differently, sums are
+    taken in another order, and a stiff model with 1e9 people turns the last-bit difference into 1e-7 people in a small compartment.)"""
     if set(arr_a) != set(arr_b):
         return ("keys", sorted(set(arr_a) ^ set(arr_b), key=repr)[:3], None, None)
     scale = 1.0
@@ -736,7 +736,7 @@ def check_state(s, v, after, exact_inputs):
         v.add("stateful/after-%s/behaviour" % after, "live objects crash with %r (%s); their own export: %s" % (e1, _exc(e1), "simulates" if e_exp is None else repr(e_exp)))
         return "diverged"
     if e1 is not None and e_exp is not None:
-        return "both-unusable(live:%s/export:%s)" % (_exc(e1), _exc(e_exp))
+        return "both-unusable(live:%s/export:%s)" % (type(e1).__name__, type(e_exp).__name__)
     if e1 is not None:
         v.add("stateful/after-%s/behaviour" % after, "live objects raise %r (%s) while the objects rebuilt from their exported spreadsheets simulate" % (e1, _exc(e1)))
         return "diverged"
